@@ -21,9 +21,10 @@ class Universe:
         self.enums: dict[str, type] = {}
 
     # -- types ---------------------------------------------------------------------------------
-    def enum(self, name: str, members: list[str]):
+    def enum(self, name: str, members: list[str], values: list | None = None):
         if name not in self.enums:
-            self.enums[name] = enum.Enum(name, {m: i for i, m in enumerate(members)})
+            vals = values if values is not None else list(range(len(members)))
+            self.enums[name] = enum.Enum(name, dict(zip(members, vals)))
         return self.enums[name]
 
     def ty(self, t: dict):
@@ -39,7 +40,7 @@ class Universe:
         if k == "path":
             return pathlib.Path
         if k == "enum":
-            return self.enum(t["cls"], t["members"])
+            return self.enum(t["cls"], t["members"], t.get("values"))
         if k == "literal":
             return Literal[tuple(self.val(v) for v in t["vals"])]
         if k == "list":
@@ -53,6 +54,10 @@ class Universe:
         if k == "dict":
             return Dict[self.ty(t["key"]), self.ty(t["val"])]
         if k == "opt":
+            if t["inner"]["k"] == "union":
+                # NOT Optional[Union[a, b]]: typing caches Optional[X] by X's *equality*, and Union[a, b] == Union[b, a],
+                # so the member order would depend on which order the process happened to see first.
+                return Union[tuple(self.ty(x) for x in t["inner"]["alts"]) + (type(None),)]
             return Optional[self.ty(t["inner"])]
         if k == "union":
             return Union[tuple(self.ty(x) for x in t["alts"])]
@@ -136,7 +141,7 @@ class Universe:
         """specs in dependency order: [{"name":…, …}]"""
         for s in specs:
             if s.get("enum"):
-                self.enum(s["name"], s["members"])
+                self.enum(s["name"], s["members"], s.get("values"))
             else:
                 self.add_class(s["name"], s)
         return self
